@@ -12,11 +12,13 @@ Local Open Scope Z_scope.
 (* ---- clause: each command takes effect or is refused exactly as the
    documented run-state / replication-state rules prescribe (Lifecycle.table;
    start / step / bounded runs are refused when the clock is *beyond* the
-   replication end - at the end itself a paused run can still be resumed) ---- *)
+   replication end - at the end itself a paused run can still be resumed; an
+   initialize that is not refused is aborted - third outcome ResRaised - exactly
+   when the model's construct_model raises) ---- *)
 Theorem C04_accept_refuse_table :
   forall fuel p st s c, reachable fuel p st s ->
     snd (do_cmd fuel p s c)
-    = table c (rs s) (ps s) (end_time s <? clock s) (bound_ok c (clock s)).
+    = table c (rs s) (ps s) (end_time s <? clock s) (bound_ok c (clock s)) (construct_raises p).
 Proof. exact accept_refuse_table. Qed.
 Print Assumptions C04_accept_refuse_table.
 
@@ -125,11 +127,64 @@ Theorem C04_cleanup_terminates_worker :
 Proof. exact cleanup_terminates_worker. Qed.
 Print Assumptions C04_cleanup_terminates_worker.
 
+(* the run thread is alive exactly in INITIALIZED / STARTED - and, after an
+   initialize aborted by an exception of construct_model, in the state
+   (NOT_INITIALIZED, NOT_INITIALIZED) that still holds the newly created thread
+   until the next initialize / cleanup.  Without a failing construct_model that
+   state does not occur (companion below), and the statement is the old one. *)
 Theorem C04_run_thread_alive_iff_runnable :
   forall fuel p st s, reachable fuel p st s ->
-    alive_count s = (if ps_runnable (ps s) then 1%nat else 0%nat).
+    alive_count s = (if ps_runnable (ps s) || holds_aborted_thread s then 1%nat else 0%nat).
 Proof. exact alive_iff_runnable. Qed.
 Print Assumptions C04_run_thread_alive_iff_runnable.
+
+Theorem C04_no_aborted_thread_without_failing_construct :
+  forall fuel p st s, construct_raises p = false -> reachable fuel p st s ->
+    holds_aborted_thread s = false.
+Proof. exact no_aborted_thread_without_failing_construct. Qed.
+Print Assumptions C04_no_aborted_thread_without_failing_construct.
+
+(* Run-thread accounting over ALL histories, aborted initializes included:
+   [vreach] lets the model program differ from command to command, so that
+   construct_model may raise in some initialize calls and not in others.  In
+   every such state: at most one live run thread; none once the replication has
+   ENDED; none after cleanup; one exactly when the replication is INITIALIZED /
+   STARTED or an aborted initialize left its thread waiting; and the next
+   initialize replaces that thread rather than adding one.
+   (The model keeps ONE run-thread field - initialize terminates the previous
+   thread before it creates the next, Model.do_init - so "at most one" is how
+   the model is built; that the implementation does the same is what the per-run
+   correspondence checks by counting live SimulatorWorkerThread objects by
+   identity after every command and after the final cleanup.) *)
+Theorem C04_run_thread_accounting :
+  forall fuel s, vreach fuel s ->
+    (alive_count s <= 1)%nat /\
+    (ps s = PEnded -> alive_count s = 0%nat) /\
+    (forall p, alive_count (fst (do_cmd fuel p s CCleanup)) = 0%nat) /\
+    (alive_count s = 1%nat <-> ps_runnable (ps s) = true \/ holds_aborted_thread s = true) /\
+    (forall p r, (alive_count (fst (do_cmd fuel p s (CInit r))) <= 1)%nat).
+Proof. exact run_thread_accounting. Qed.
+Print Assumptions C04_run_thread_accounting.
+
+(* non-vacuity: a history with an aborted initialize (construct_model raises),
+   then a successful one, a run to the end and a cleanup; the thread counts *)
+Example C04_history_with_aborted_initialize :
+  let pbad : program := [[ASched (MAbs (TNum 4)) 5 1; AFail]; []] in
+  let pok : program := [[ASched (MAbs (TNum 4)) 5 1]; []] in
+  let s0 := init_sim SWarnPause in
+  let s1 := fst (do_cmd 100 pbad s0 (CInit (mkRepl 0 2 16))) in
+  let s2 := fst (do_cmd 100 pok s1 (CInit (mkRepl 0 2 16))) in
+  let s3 := fst (do_cmd 100 pok s2 CStart) in
+  let s4 := fst (do_cmd 100 pok s3 CCleanup) in
+  vreach 100 s4 /\
+  snd (do_cmd 100 pbad s0 (CInit (mkRepl 0 2 16))) = ResRaised /\
+  holds_aborted_thread s1 = true /\ alive_count s1 = 1%nat /\
+  snd (do_cmd 100 pok s1 (CInit (mkRepl 0 2 16))) = ResOk /\ alive_count s2 = 1%nat /\
+  ps s3 = PEnded /\ alive_count s3 = 0%nat /\ alive_count s4 = 0%nat.
+Proof.
+  cbv zeta. split; [|vm_compute; auto 10].
+  repeat apply vr_step. apply vr_init.
+Qed.
 
 (* ---- clause: this also holds when a command overlaps the run thread's own
    transitions - PARTIAL.
@@ -256,7 +311,7 @@ Print Assumptions C04_generated_reachable_wf.
 Theorem C04_generated_accept_refuse_table :
   forall fuel p st s c, reachable fuel p st s ->
     snd (gen_do_cmd fuel p s c)
-    = table c (rs s) (ps s) (end_time s <? clock s) (bound_ok c (clock s)).
+    = table c (rs s) (ps s) (end_time s <? clock s) (bound_ok c (clock s)) (construct_raises p).
 Proof.
   intros fuel p st s c H. rewrite gen_do_cmd_eq by (exact (C04_generated_reachable_wf fuel p st s H)).
   apply accept_refuse_table with (st := st). exact H.
